@@ -1439,7 +1439,7 @@ def attrs(
                 getstate_setstate,
                 auto_detect,
                 ("__getstate__", "__setstate__"),
-                default=slots,
+                default=slots or _inherits_generated_getstate(cls),
             ),
             auto_attribs,
             kw_only,
@@ -1540,6 +1540,21 @@ _attrs = attrs
 Internal alias so we can use it in functions that take an argument called
 *attrs*.
 """
+
+
+def _inherits_generated_getstate(cls):
+    """
+    Check whether *cls* would inherit a `__getstate__` that we generated for
+    one of its base classes.
+
+    That method (and its `__setstate__`) only knows the base class's fields
+    and hash cache, so *cls* needs its own pair even if it isn't slotted.
+    """
+    getstate = getattr(cls, "__getstate__", None)
+    return (
+        getattr(getstate, "__name__", None) == "slots_getstate"
+        and getattr(getstate, "__module__", None) == __name__
+    )
 
 
 def _has_frozen_base_class(cls):
